@@ -5,6 +5,7 @@ import GrmVerif.Model.RankImpl
 import GrmVerif.Lemmas.RecEdited
 import GrmVerif.Lemmas.KeptCert
 import GrmVerif.Model.SearchImpl
+import GrmVerif.Model.Cpct
 import GrmVerif.Drive.C08
 import GrmVerif.Drive.C01
 /-!
@@ -153,6 +154,10 @@ structure Ctx where
   live : Bool := false
   /-- every token costs at least 1 -/
   costsOk : Bool := true
+  /-- the hypotheses on table and costs of the capstone theorems (`C05.cpct_recovering_parse_is_plain_parse_of_edited_input`,
+  `C07.cpct_recovering_parse_result`, …): `C05.wholeRunCert`, `SearchImpl.stateActionsExactB`, costs ≥ 1
+  (evaluated once per table, for `which = 6`) -/
+  capTable : Bool := false
 
 def N_SHIFTS := 3
 
@@ -222,6 +227,14 @@ def modelWalk (X : Ctx) (k : Nat) (w : List Nat) : Nat → Pos → List ErrD →
       -- the hypotheses of the search theorems (`C06.hyps_decidable`) at this error
       let hyp := if X.costsOk && SearchImpl.checkHyps E ce then "C errors_within_the_hypotheses_of_the_search_theorems 1"
         else "C errors_outside_the_hypotheses_of_the_search_theorems 1"
+      -- the hypotheses of the capstone theorems at this error: those on table and costs (`capTable`), and
+      -- the error configuration is one `Parser::lr` calls `recover` at (`Cpct.errCfg`; proved of every
+      -- call in a run: `C05.cpct_restriction_invisible`); separately, the sufficient condition for the
+      -- window hypothesis of `C06.cpct_reports_minimum_cost_repairs_at_every_error`
+      let cap := (if X.capTable && Cpct.errCfg X.G X.A w ce then "C errors_within_the_hypotheses_of_the_capstone_theorems 1"
+        else "C errors_outside_the_hypotheses_of_the_capstone_theorems 1") ::
+        (if Cpct.errCfg X.G X.A w ce then [] else ["C errors_at_a_configuration_that_is_not_an_error_configuration 1"]) ++
+        (if w.length ≤ ce.pos + GrmVerif.Extracted.TRY_PARSE_AT_MOST then ["C errors_within_the_window_hypothesis 1"] else [])
       let skip (why : String) : List String :=
         match errs with
         | [] => [hdr ++ why]
@@ -243,7 +256,7 @@ def modelWalk (X : Ctx) (k : Nat) (w : List Nat) : Nat → Pos → List ErrD →
           match SearchImpl.recoverTail E RankImpl.dedup X.avoid (fun i => X.stride * i + 1)
               GrmVerif.Extracted.TRY_PARSE_AT_MOST ce cnds with
           | .ok (c', seqs) =>
-            [hdr ++ seqsStr seqs, "C errors_where_the_full_model_of_recover_ran 1", hyp] ++
+            [hdr ++ seqsStr seqs, "C errors_where_the_full_model_of_recover_ran 1", hyp] ++ cap ++
             (if cnds.any (fun m => match m.repairs with | .merge _ _ _ => true | _ => false)
               then ["C errors_with_merged_success_nodes 1"] else []) ++
             (if seqs.isEmpty then [] else modelWalk X k w budget c' errs.tail (n + 1))
@@ -453,7 +466,9 @@ def handle (args : List Nat) : String :=
             (if certOk then [] else ["C liveness_outside_certificate_fails 1"]) ++
             (if termOk then [] else ["C liveness_outside_termination_not_certified 1"])
           let X : Ctx := ⟨G, A, fun t => costs.getD t 1, fun t => avoid.getD t 0 != 0, stride, toklen, cap,
-            which == 7 && certOk && termOk, costs.all (· ≥ 1)⟩
+            which == 7 && certOk && termOk, costs.all (· ≥ 1),
+            which == 6 && costs.all (· ≥ 1) && A.sr.isEmpty && A.rr.isEmpty && !C01.precResolved G A &&
+              Cpct.tableOkB G A && GrmVerif.C05.wholeRunCert G A⟩
           let vs := (List.range inps.length).flatMap (fun k =>
             let i := inps.getD k ⟨[], 0, none, []⟩
             if i.kind != 1 then [] else judge X which k i)
